@@ -794,7 +794,8 @@ Definition run_trees (sbody hbody : list stmt) (s : st) (c : conn) : st * hobs :
    proxies   : live proxy objects (owner process, ident) -- each did one incref;
    pending   : creations in progress -- Server.create's own incref, not yet released by the
                creator (BaseManager.<typeid>() / BaseProxy._callmethod on '#PROXY');
-   orphans   : creations whose '#PROXY' reply could not be sent (nobody will release them). *)
+   orphans   : references nobody will release: creations whose '#PROXY' reply could not be sent,
+               and the references of holders that vanished without a decref (H_vanish). *)
 (* p_mgr: does the proxy object know its manager (true for the creating process; false for
    copies made by unpickling / after fork, where BaseProxy._manager is None) *)
 Record proxy := mk_proxy { p_pid : Z; p_id : Z; p_mgr : bool }.
@@ -1003,6 +1004,13 @@ Inductive hop :=
                                                               _after_fork -> _incref *)
 | H_stale (pid id : Z)                                     (* unpickle a token whose referent may be gone *)
 | H_drop (k : nat)
+| H_vanish (k : nat)                                       (* the holder of proxy k disappears WITHOUT a decref:
+                                                              its process is killed (the serving thread reads
+                                                              EOF and exits -- Server.serve_client, `except
+                                                              EOFError: sys.exit(0)` -- nothing is released), or
+                                                              BaseProxy._decref skips / swallows the request
+                                                              (`state.value != STARTED`; `except Exception` around
+                                                              the connection).  The server is not told. *)
 | H_call (k : nat) (m : meth) (a : list arg) (newid : Z).
 
 Definition last_pending (y : sys) : nat := pred (length (y_pending y)).
@@ -1034,6 +1042,12 @@ Definition hstep (y : sys) (h : hop) : sys * cobs :=
     end
   | H_stale pid id => cstep y (K_proxy pid id false)
   | H_drop k => cstep y (K_drop k)
+  | H_vanish k =>
+    (* no request reaches the server: the reference stays counted and nobody will release it *)
+    match nth_error (y_proxies y) k with
+    | Some p => (mk_sys (y_srv y) (remove_nth k (y_proxies y)) (y_pending y) (y_orphans y ++ [p_id p]), CO_ok)
+    | None => (y, CO_noop)
+    end
   | H_call k m a newid =>
     let (y1, o1) := cstep y (K_call k m a newid O) in
     match o1, nth_error (y_proxies y) k with
